@@ -337,8 +337,20 @@ def handleParse (tbl : TextTable) (vt module pows input numpart numparse result 
     | .valueParseError => "badnum"
     | .unknownUnit => "unknown"
   let key := if m.startsWith "ok:" then "parse:ok" else s!"parse:{m}"
-  return ⟨[splitOk, if m == result then .ok else .diff s!"parse.{vt}.model" s!"model={m} impl={result}",
-           if result == "PANIC" then .prop "parse.panic" "from_str panicked" else .ok], [key], true⟩
+  -- the property stated clause by clause on the observed result (not by running `fromStr`):
+  -- no U+0020 ⇒ NoSeparator; else a number part the storage type rejects ⇒ ValueParseError, whatever
+  -- follows; else success exactly when the rest, blanks trimmed, is one of the quantity's labels
+  let hasSpace := inp.contains 0x20
+  let rest := (inp.dropWhile (· != 0x20)).drop 1
+  let registered := rows.any fun row => row.labels.abbr == trim rest || row.labels.sing == trim rest || row.labels.plur == trim rest
+  let orc : Outcome :=
+    if result == "PANIC" then .prop "parse.panic" "from_str panicked"
+    else if !hasSpace then (if result == "nosep" then .ok else .prop "parse.oracle" s!"input without a U+0020 separator is answered {result}, not NoSeparator")
+    else if numparse == "bad" then (if result == "badnum" then .ok else .prop "parse.oracle" s!"a number part the storage type rejects is answered {result}, not ValueParseError (precedence: separator, number, unit)")
+    else if !numparse.startsWith "ok:" then .ok
+    else if registered then (if result.startsWith "ok:" then .ok else .prop "parse.oracle" s!"a parsable number and a registered label are answered {result}")
+    else (if result == "unknown" then .ok else .prop "parse.oracle" s!"a label that is not registered for the quantity is answered {result}, not UnknownUnit")
+  return ⟨[splitOk, if m == result then .ok else .diff s!"parse.{vt}.model" s!"model={m} impl={result}", orc], [key], true⟩
 
 /-- C12: format in a registered unit, parse the text back: the original quantity up to conversion rounding -/
 def handleParseRt (tbl : TextTable) (vt module idx pows v back : String) : Option LineResult := do
@@ -464,7 +476,18 @@ def handleDurInt (vt base pows cs cn v obs : String) : Option LineResult := do
        else .prop "dur.panic" "Duration::try_from panicked")
     else if v < 0 then (if obs == "neg" then .ok else .prop "dur.class" "negative time must report NegativeDuration")
     else if obs == "neg" then .prop "dur.class" "NegativeDuration for a non-negative time"
-    else .ok
+    else match obs.splitOn ":" with
+      | ["ok", so, no] =>
+        -- accuracy: integers have no ulps — the Duration is within one nanosecond of the time's magnitude
+        match so.toNat?, no.toNat? with
+        | some so, some no =>
+          if cs == 0 then .ok
+          else
+            let t : Rat := (v : Rat) * fac / cs
+            if ratAbs ((so : Rat) + (no : Rat) / 1000000000 - t) ≤ 1 / 1000000000 then .ok
+            else .prop "dur.int.acc" "integer storage: the Duration is more than one nanosecond away from the time's magnitude"
+        | _, _ => .ok
+      | _ => .ok
   return ⟨[mo, orc], [s!"dur:{vt}:{base}", s!"dur:{(obs.splitOn ":").head!}"], true⟩
 
 def handleTimInt (vt base pows cs cn secs nanos obs : String) : Option LineResult := do
@@ -679,13 +702,26 @@ def handleLine (tbl : TextTable) (line : String) : Option LineResult :=
     | some N => handleConvx N (vt == "bigrational" || vt == "rational64") vt coef consA consS pows v newObs getObs rtObs
     | none => none
   | ["skip", vt, _base, _module, _unit] => some ⟨[.guard "coefficient not representable"], [s!"skip:{vt}"], false⟩
-  | ["cplx", vt, _base, _module, _unit, coef, consA, consS, pows, re, im, norm, nre, nim, gre, gim, rre, rim] => do
+  | ["cplx", vt, _base, module, unit, coef, consA, consS, pows, re, im, norm, nre, nim, gre, gim, rre, rim] => do
     let f ← fmtOf? (if vt == "complex64" then "f64" else "f32")
     let c ← convCase? (if vt == "complex64" then "f64" else "f32") coef consA consS pows re
     let im ← flOf? f im
     let norm ← flOf? f norm
     let obs ← [nre, nim, gre, gim, rre, rim].mapM (flOf? f)
-    return handleCplx f c im norm obs
+    let r := handleCplx f c im norm obs
+    -- "the real conversion factor … a real offset, if any": what complex storage publishes for the unit
+    -- must be what the unit declares (the table regenerated from src/si, when the dump precedes the cases)
+    let decl : Outcome :=
+      match (tbl.units.get? module).bind (fun rows => rows.find? (fun row => row.name == unit)) with
+      | none => .ok
+      | some row =>
+        let o := if vt == "complex64" then 0 else 3
+        -- (a zero offset may carry either sign: complex conversion goes through a norm, never negative)
+        let sameC (a b : String) : Bool := a == b || (match flOf? f a, flOf? f b with
+          | some x, some y => x.isZero && y.isZero | _, _ => false)
+        if row.conv[o]! == coef && sameC row.conv[o + 1]! consA && sameC row.conv[o + 2]! consS then .ok
+        else .prop "cplx.decl.oracle" s!"complex storage publishes coefficient/offsets ({coef}, {consA}, {consS}) for {module}::{unit}, the unit declares ({row.conv[o]!}, {row.conv[o + 1]!}, {row.conv[o + 2]!})"
+    return { r with outs := r.outs ++ [decl] }
   | ["fmt", vt, _base, module, idx, style, _spec, coef, consS, pows, v, x, out, rawfmt] =>
     match numTy? vt with
     | some N => handleFmt tbl N vt module idx style coef consS pows v x out rawfmt
